@@ -20,6 +20,7 @@ package store
 
 import (
 	"bufio"
+	"context"
 	"encoding/binary"
 	"encoding/json"
 	"errors"
@@ -156,8 +157,12 @@ func TestVerifC08Child(t *testing.T) {
 			st = NewStorer("vf", root, num(2), num(1), config.FlushPolicy{})
 			st.VerifStopCollector()
 		case "dsetrun":
+			old := st.RunId()
 			if err := st.SetRunId(f[1]); err != nil {
 				t.Fatal(err)
+			}
+			if st.RunId() != old {
+				aofW = nil // a writer left open was closed by the switch (old.Close())
 			}
 		case "dverify":
 			if _, err := st.VerifyRunId(strings.Split(f[1], ",")); err != nil {
@@ -166,6 +171,9 @@ func TestVerifC08Child(t *testing.T) {
 		case "ddel":
 			if err := st.DelRunId(f[1]); err != nil {
 				t.Fatal(err)
+			}
+			if st.RunId() == "" {
+				aofW = nil // closed by the reset
 			}
 		case "drdbw":
 			if sr != nil {
@@ -217,6 +225,72 @@ func TestVerifC08Child(t *testing.T) {
 			<-w.wait.Context().Done()
 			close(sr.data)
 			sr, rdbW = nil, nil
+		case "drdbaf":
+			// the COMMIT of a completely received snapshot fails (closeRdb: Sync, Close, Rename must all
+			// succeed before the index is told — 45f65ae). The fault is planted right after the LAST data
+			// write, inside write(), through the writer's own byte counter:
+			//   s: a pipe is dup2'ed over the descriptor -> fsync fails (EINVAL), no rename is attempted;
+			//   c: the fsync succeeds, close(2) fails (EIO, a seccomp filter on that descriptor number);
+			//   S: the same, and the directory is immutable: os.Remove(tmp) fails as well;
+			//   r: the directory is immutable until the index has been told (the writer's observer clears
+			//      it): the rename fails (EPERM), the removal of the temporary file succeeds;
+			//   R: immutable until the writer is done: rename and removal both fail.
+			stage := f[1]
+			dir := filepath.Join(root, c08RunId)
+			w := rdbW
+			left, size := w.left, w.rdbSize
+			var pipeR *os.File
+			immut := func(on bool) {
+				if e := c08SetImmutable(dir, on); e != nil && on {
+					os.WriteFile(filepath.Join(root, "violation.txt"), []byte("fault-not-injected|immutable attribute: "+e.Error()), 0o644)
+				}
+			}
+			restoreCnt := c08HookRdbWrite(func() bool {
+				if w.offset-w.left != w.rdbSize {
+					return false // not the last write yet
+				}
+				switch stage {
+				case "s", "S":
+					if pipeR = c08LoseSync(w); pipeR == nil {
+						os.WriteFile(filepath.Join(root, "violation.txt"), []byte("fault-not-injected|dup2 over the snapshot writer's descriptor failed"), 0o644)
+					}
+					if stage == "S" {
+						immut(true)
+					}
+				case "c":
+					// the fsync succeeds, the close(2) of the descriptor reports an error
+					if e := c08FailClose(int(w.writer.Fd())); e != nil {
+						os.WriteFile(filepath.Join(root, "violation.txt"), []byte("fault-not-injected|seccomp filter: "+e.Error()), 0o644)
+					}
+				case "r", "R":
+					immut(true)
+				}
+				return true
+			})
+			if stage == "r" {
+				old := *w.observer.Load()
+				var obs Observer = &observerProxy{open: old.Open, read: old.Read, write: old.Write,
+					close: func(a ...interface{}) { old.Close(a...); immut(false) }}
+				w.observer.Store(&obs)
+			}
+			sr.data <- vfutil.UnHex(f[2])
+			<-w.wait.Context().Done()
+			restoreCnt()
+			immut(false)
+			if pipeR != nil {
+				pipeR.Close()
+			}
+			close(sr.data)
+			sr, rdbW = nil, nil
+			// at RUNTIME, before any death: the failure reaches the caller and the snapshot is not offered
+			if err := w.Wait(context.Background()); err == nil {
+				os.WriteFile(filepath.Join(root, "violation.txt"), []byte(fmt.Sprintf(
+					"commit-failure-not-reported|the commit of snapshot %d_%d failed (stage %s) and Wait returned nil", left, size, stage)), 0o644)
+			}
+			if l, sz := st.GetRdb(); l == left && sz == size {
+				os.WriteFile(filepath.Join(root, "violation.txt"), []byte(fmt.Sprintf(
+					"failed-commit-offered|the commit of snapshot %d_%d failed (stage %s) and the cache offers it", left, size, stage)), 0o644)
+			}
 		case "daofw":
 			w, err := st.GetAofWritter(nil, num(1))
 			if err != nil {
@@ -454,6 +528,81 @@ func c08ImmutableWorks(tmp string) bool {
 		return false
 	}
 	return true
+}
+
+// c08CountHook wraps the snapshot writer's byte counter (a package variable of interface type):
+// Add is called inside RdbWriter.write right after a successful file write, with the writer's
+// mutex held — the only point between the LAST data write and closeRdb the code offers.
+type c08CountHook struct {
+	inner interface {
+		Inc(labels ...string)
+		Add(v float64, labels ...string)
+		Close() bool
+	}
+	f func() bool
+}
+
+func (h *c08CountHook) Inc(l ...string) { h.inner.Inc(l...) }
+func (h *c08CountHook) Close() bool     { return h.inner.Close() }
+func (h *c08CountHook) Add(v float64, l ...string) {
+	h.inner.Add(v, l...)
+	if h.f != nil && h.f() {
+		h.f = nil
+	}
+}
+
+// c08HookRdbWrite runs f after every data write of a snapshot writer until f returns true.
+func c08HookRdbWrite(f func() bool) (restore func()) {
+	old := rdbWriteDataCounter
+	rdbWriteDataCounter = &c08CountHook{inner: old, f: f}
+	return func() { rdbWriteDataCounter = old }
+}
+
+// c08LoseSync dup2's a pipe over the snapshot writer's descriptor (called with the writer's mutex
+// held, after the last data write: every byte is in the file): the fsync of the commit fails with
+// EINVAL, the close succeeds. Returns the pipe's read end.
+func c08LoseSync(w *RdbWriter) *os.File {
+	r, wp, err := os.Pipe()
+	if err != nil {
+		return nil
+	}
+	defer wp.Close()
+	if err := syscall.Dup2(int(wp.Fd()), int(w.writer.Fd())); err != nil {
+		r.Close()
+		return nil
+	}
+	return r
+}
+
+// c08FailClose makes close(2) of ONE descriptor number fail with EIO in every thread of this
+// process, from now on (a seccomp filter, SECCOMP_FILTER_FLAG_TSYNC; the child process only): a
+// close that reports an error AFTER a successful fsync — what NFS / FUSE / a quota do — cannot be
+// had from a local file system otherwise. The descriptor stays open (the syscall is not executed),
+// so its number is never reused.
+func c08FailClose(fd int) error {
+	const (
+		ld    = 0x00 | 0x00 | 0x20 // BPF_LD | BPF_W | BPF_ABS
+		jeq   = 0x05 | 0x10 | 0x00 // BPF_JMP | BPF_JEQ | BPF_K
+		ret   = 0x06 | 0x00        // BPF_RET | BPF_K
+		allow = 0x7fff0000
+		errno = 0x00050000
+	)
+	prog := []syscall.SockFilter{
+		{Code: ld, K: 0}, // seccomp_data.nr
+		{Code: jeq, K: uint32(syscall.SYS_CLOSE), Jt: 0, Jf: 3},
+		{Code: ld, K: 16}, // seccomp_data.args[0], low word
+		{Code: jeq, K: uint32(fd), Jt: 0, Jf: 1},
+		{Code: ret, K: errno | uint32(syscall.EIO)},
+		{Code: ret, K: allow},
+	}
+	fprog := syscall.SockFprog{Len: uint16(len(prog)), Filter: &prog[0]}
+	if _, _, e := syscall.Syscall6(syscall.SYS_PRCTL, 38 /* PR_SET_NO_NEW_PRIVS */, 1, 0, 0, 0, 0); e != 0 {
+		return e
+	}
+	if _, _, e := syscall.Syscall(317 /* SYS_SECCOMP */, 1 /* SET_MODE_FILTER */, 1 /* TSYNC */, uintptr(unsafe.Pointer(&fprog))); e != 0 {
+		return e
+	}
+	return nil
 }
 
 // c08HookWrite runs f right after the writer's next data write (inside write(), before
@@ -905,6 +1054,12 @@ func c08ParseTrace(path, dir string, multi bool) ([]c08Op, error) {
 							delete(sizes, k)
 						}
 					}
+					// an OPEN descriptor follows its file into the renamed directory
+					for _, st := range fds {
+						if strings.HasPrefix(st.name, da+"/") {
+							st.name = db + "/" + strings.TrimPrefix(st.name, da+"/")
+						}
+					}
 				}
 			}
 		case "unlinkat", "unlink":
@@ -919,6 +1074,13 @@ func c08ParseTrace(path, dir string, multi bool) ([]c08Op, error) {
 				if a, in := inDir(p); in {
 					ops = append(ops, c08Op{kind: "remove", name: a})
 					delete(sizes, a)
+					// a descriptor still open on the unlinked file writes to an inode no name leads to:
+					// no effect on the directory
+					for fd, st := range fds {
+						if st.name == a {
+							delete(fds, fd)
+						}
+					}
 				}
 				if id, ok := idDir(p); ok && strings.Contains(args, "AT_REMOVEDIR") {
 					ops = append(ops, c08Op{kind: "rmdir", name: id})
@@ -1275,11 +1437,24 @@ func (p *c08Parent) genFaultScript(r *vfutil.Rand) string {
 	left := right + int64(r.Intn(50))
 	size := int64(9 + r.Intn(40))
 	b := c08Snap(p.salt, left, size)
-	ops = append(ops, fmt.Sprintf("drdbw %d %d", left, size), "drdba "+vfutil.Hex(b[:size/2]))
+	// (the attempts that fail carry OTHER bytes than the snapshot finally committed under the same name: what
+	// a leftover temporary file holds must not show up in it)
+	b2 := c08Snap(p.salt+1, left, size)
+	ops = append(ops, fmt.Sprintf("drdbw %d %d", left, size), "drdba "+vfutil.Hex(b2[:size/2]))
 	if p.immutable {
 		ops = append(ops, "drdbcr")
 	} else {
 		ops = append(ops, "drdbc")
+	}
+	// the same snapshot received completely, its COMMIT failing: at the fsync, then (immutable directory) at
+	// the rename with the temporary file removed / left behind; each time it is received again
+	stages := []string{"s", "c"}
+	if p.immutable {
+		stages = []string{vfutil.Pick(r, []string{"s", "S"}), "c", "r", "R"}
+	}
+	for _, stg := range stages {
+		ops = append(ops, fmt.Sprintf("drdbw %d %d", left, size), "drdba "+vfutil.Hex(b2[:size/2]), "drdbaf "+stg+" "+vfutil.Hex(b2[size/2:]))
+		p.s.Count("fault_commit_" + stg)
 	}
 	ops = append(ops, fmt.Sprintf("drdbw %d %d", left, size), "drdba "+vfutil.Hex(b[:size/2]), "drdba "+vfutil.Hex(b[size/2:]))
 	p.snap[fmt.Sprintf("%d_%d.rdb", left, size)] = b
@@ -1300,6 +1475,7 @@ func (p *c08Parent) genIdScript(r *vfutil.Rand) (string, map[byte]uint64) {
 	logSize := vfutil.Pick(r, []int{32, 48, 64})
 	var ops []string
 	rights := map[string]int64{}
+	leaveOpen := false // the next stream's writer is NOT closed: the id-level operation that follows finds it open
 	stream := func(id string, n int) {
 		right := rights[id]
 		ops = append(ops, fmt.Sprintf("daofw %d", right))
@@ -1308,15 +1484,17 @@ func (p *c08Parent) genIdScript(r *vfutil.Rand) (string, map[byte]uint64) {
 			ops = append(ops, "daofa "+vfutil.Hex(c08SrcSeg(salts[id[0]], right, c)))
 			right += int64(c)
 		}
-		switch r.Intn(4) {
-		case 0:
+		switch k := r.Intn(4); {
+		case leaveOpen:
+			// nothing closed: SetRunId / DelRunId find the writer open and close it AFTER their
+			// directory-level syscalls (open_writer_switch_crash_true / open_writer_del_crash_true)
+			p.s.Count(fmt.Sprintf("id_op_finds_writer_open_empty_%v", n == 0))
+		case k == 0:
 			ops = append(ops, fmt.Sprintf("daofcf %d", r.Intn(16)))
-		case 1:
-			// nothing closed: the next operation finds the writer open (a new process, or a switch)
-			ops = append(ops, "daofc")
 		default:
 			ops = append(ops, "daofc")
 		}
+		leaveOpen = false
 		rights[id] = right
 	}
 	newProc := func() { ops = append(ops, fmt.Sprintf("dnew %d 0", logSize)) }
@@ -1330,16 +1508,28 @@ func (p *c08Parent) genIdScript(r *vfutil.Rand) (string, map[byte]uint64) {
 	stream("b", 2+r.Intn(3))
 	newProc()
 	ops = append(ops, "dverify ?,zz,a,b") // a is taken
-	stream("a", 1+r.Intn(2))
+	leaveOpen = r.Bool()
+	if leaveOpen && r.Chance(1, 3) {
+		stream("a", 1)
+		leaveOpen = true
+		stream("a", 0) // an EMPTY live segment is left open across the rename
+	} else {
+		stream("a", 1+r.Intn(2))
+	}
+	// a placeholder id with a current directory: ignored before anything else (02e084c; before it the
+	// current directory was renamed to <base>/?) — placeholder_id_ignored
+	ops = append(ops, "dsetrun "+vfutil.Pick(r, []string{"?", "?", "a"}))
 	ops = append(ops, "dsetrun a2") // the id changes: directory a renamed to a2
 	rights["a2"] = rights["a"]
 	delete(rights, "a")
+	leaveOpen = r.Bool()
 	stream("a2", 1+r.Intn(2))
 	ops = append(ops, "dsetrun b") // an existing id: switch, re-scan
 	stream("b", 1+r.Intn(2))
 	ops = append(ops, "dsetrun a2")
 	if r.Bool() {
-		stream("a2", 1)
+		leaveOpen = r.Bool()
+		stream("a2", r.Intn(2))
 	}
 	ops = append(ops, "ddel a2") // the current id's directory goes, entry by entry
 	ops = append(ops, "dsetrun a") // no current id: a new directory
@@ -1347,8 +1537,9 @@ func (p *c08Parent) genIdScript(r *vfutil.Rand) (string, map[byte]uint64) {
 	stream("a", 1+r.Intn(2))
 	newProc()
 	ops = append(ops, "dverify zz,b,a") // b is taken
+	leaveOpen = r.Bool()
 	stream("b", 1)
-	ops = append(ops, "ddel a", "ddel zz")
+	ops = append(ops, "ddel zz", "ddel a") // a missing id: nothing happens; ANOTHER id's directory: the current index is reset too
 	return strings.Join(ops, " ; "), salts
 }
 
@@ -1464,6 +1655,9 @@ func (p *c08Parent) genScript(r *vfutil.Rand) (string, int64, int64) {
 				if p.immutable && r.Chance(1, 4) {
 					mode = 6
 				}
+				if r.Chance(1, 4) {
+					mode = 7 // completely received, the COMMIT fails
+				}
 			}
 			var chunks [][]byte
 			for at := int64(0); at < size; {
@@ -1490,6 +1684,14 @@ func (p *c08Parent) genScript(r *vfutil.Rand) (string, int64, int64) {
 					done = true
 				case mode == 3 && last, mode == 5 && (i == len(chunks)/2):
 					ops = append(ops, "drdbf "+vfutil.Hex(c))
+					done = true
+				case mode == 7 && last:
+					stage := vfutil.Pick(r, []string{"s", "c"})
+					if p.immutable {
+						stage = vfutil.Pick(r, []string{"s", "c", "S", "r", "R"})
+					}
+					ops = append(ops, "drdbaf "+stage+" "+vfutil.Hex(c))
+					p.s.Count("fault_commit_" + stage)
 					done = true
 				default:
 					ops = append(ops, "drdba "+vfutil.Hex(c))
@@ -1987,6 +2189,29 @@ func (p *c08Parent) crashImages(ops []c08Op, script string) {
 				return c
 			})
 			alterSnap("footer", func(c []byte) []byte { c[len(c)-1-p.r.Intn(8)] ^= byte(1 << p.r.Intn(8)); return c })
+		}
+		// (4b) a committed snapshot NAME whose file has another size than announced (power loss after
+		// the rename reached the disk before the data, a copy cut short): not a crash image of the
+		// writers, but covered since initDataSet compares the size — it must not be offered (monitor
+		// incomplete-snapshot-offered; compared with the model: wrong_size_snapshot_not_offered)
+		for _, name := range imNames {
+			b := im[name]
+			if !strings.HasSuffix(name, ".rdb") || len(b) == 0 {
+				continue
+			}
+			for _, alt := range []struct {
+				what string
+				f    func(c []byte) []byte
+			}{
+				{"short", func(c []byte) []byte { return c[:len(c)-1] }},
+				{"half", func(c []byte) []byte { return c[:len(c)/2] }},
+				{"extended", func(c []byte) []byte { return append(c, 0x5a) }},
+			} {
+				a := im.clone()
+				a[name] = alt.f(append([]byte(nil), b...))
+				p.reopen(a, false, "wrong_size_snapshot_"+alt.what, script)
+				s.Count("snapshot_wrong_size_images")
+			}
 		}
 		// (5) files removed in ANY order (DelRunId = os.RemoveAll in readdir order; any
 		// subset of the final image may survive a death during it)
